@@ -8,14 +8,14 @@ CONSTANTS
   SelectAllFifo = FALSE
   Sessions = {"s1"}
   TopicNames = {"t1"}
-  LiveOps = {"x"}
-  LivePayloads = {"x"}
+  LiveOps = {"r1", "x"}
+  LivePayloads = {"x", "l1"}
   MaxN = 1
   MaxR = 1
-  MaxFailAt = 6
+  MaxFailAt = 7
   MaxFaults = 1
-  MaxLiveIn = 1
-  MaxLiveQ = 1
+  MaxLiveIn = 2
+  MaxLiveQ = 2
 INVARIANTS
   C22_Lifecycle
   C22_NoHang
